@@ -454,6 +454,12 @@ class Interp:
 
     def decide(self, key, fresh=False):
         if isinstance(key, AbstractValue):
+            # the decision is remembered under the object's identity: the object is kept alive for as long as the
+            # oracle lives, or a later value allocated at the same address would inherit the decision
+            keep = getattr(self.oracle, 'keep', None)
+            if keep is None:
+                keep = self.oracle.keep = []
+            keep.append(key)
             return self.oracle.decide(id(key), getattr(key, 'tag', '?'))
         return self.oracle.decide(None if fresh else key, key)
 
